@@ -61,7 +61,11 @@ impl Directive for Global
 						ctx.push_error(args.convert(DirectiveErrorKind::Apply{dir: self.get_name().to_owned(), source}));
 						return Err(ErrorLevel::Fatal);
 					},
-					Err(e) => unreachable!("{e:?}"),
+					Err(e) =>
+					{
+						ctx.push_error(args.convert(DirectiveErrorKind::Apply{dir: self.get_name().to_owned(), source: Box::new(e)}));
+						return Err(ErrorLevel::Fatal);
+					},
 				}
 				let curr_local = ctx.get_constant(name, Realm::Local);
 				match curr_local
